@@ -656,6 +656,11 @@ class Interp:
             return bool(v)
         if isinstance(v, re.Match):
             return True  # a match object (of a regex call the rule let through to `re`) is truthy; no match is None
+        if isinstance(v, PyNative) and hasattr(v, "truth") and hasattr(v, "flat"):
+            try:
+                return v.truth()
+            except ValueError as ex:
+                raise Raised(f"ValueError: {ex}")
         if isinstance(v, PyNative):
             try:
                 return bool(v)
@@ -770,6 +775,25 @@ class Interp:
             elif isinstance(t, ast.BinOp) and isinstance(t.op, ast.BitOr):
                 flat(t.left)
                 flat(t.right)
+            elif isinstance(t, ast.Call) and isinstance(t.func, ast.Name) and t.func.id == "type" and len(t.args) == 1 and not t.keywords:
+                # isinstance(other, type(self)): the class of the value
+                v_ = self.expr(t.args[0], env)
+                if isinstance(v_, Node):
+                    targets.append(v_.cls)
+                elif isinstance(v_, PyNative):
+                    targets.append(type(v_).__name__)
+                elif isinstance(v_, (bool, int, float, complex, str, list, tuple, dict)):
+                    targets.append(type(v_).__name__)
+                else:
+                    raise AnalysisError("absint: isinstance against type(<value of unknown class>)")
+            elif isinstance(t, ast.Attribute) and t.attr == "__class__":
+                v_ = self.expr(t.value, env)
+                if isinstance(v_, Node):
+                    targets.append(v_.cls)
+                elif isinstance(v_, PyNative):
+                    targets.append(type(v_).__name__)
+                else:
+                    raise AnalysisError("absint: isinstance against <value>.__class__ of unknown class")
             else:
                 targets.append(dotted(t) or ast.unparse(t))
 
@@ -956,7 +980,11 @@ class Interp:
                 try:
                     v_ = getattr(base, e.attr)
                 except AttributeError:
-                    raise Raised(f"AttributeError: {type(base).__name__}.{e.attr}")
+                    if any("__getattr__" in vars(c_) for c_ in type(base).__mro__ if c_ is not object):
+                        # a stand-in with dynamic attributes decides for itself what it lacks
+                        raise Raised(f"AttributeError: {type(base).__name__}.{e.attr}")
+                    # the stand-in does not model this attribute: a gap of the model, not a property of the library object it stands for
+                    raise AnalysisError(f"absint: stand-in {type(base).__name__} does not model attribute `{e.attr}`")
                 return _PyCall(v_) if callable(v_) and not isinstance(v_, PyNative) else v_
             if isinstance(base, (int, float, complex)) and not isinstance(base, bool) and e.attr in ("real", "imag"):
                 return getattr(base, e.attr)
@@ -1189,6 +1217,17 @@ class Interp:
             else:
                 r = (a in b) if isinstance(b, (set, frozenset)) else any(self.equal(a, x) for x in self.iterate(b))
             return r if isinstance(op, ast.In) else not r
+        # NumPy arrays compare elementwise (the result is a boolean array; its truth value is defined for one element only)
+        arr = a if (isinstance(a, PyNative) and hasattr(a, "compare") and hasattr(a, "flat")) else b if (isinstance(b, PyNative) and hasattr(b, "compare") and hasattr(b, "flat")) else None
+        if arr is not None and isinstance(op, (ast.Eq, ast.NotEq, ast.Lt, ast.LtE, ast.Gt, ast.GtE)) and not isinstance(a if arr is b else b, (Node, str, type(None))):
+            import operator as _op
+            fn = {ast.Eq: _op.eq, ast.NotEq: _op.ne, ast.Lt: _op.lt, ast.LtE: _op.le, ast.Gt: _op.gt, ast.GtE: _op.ge}[type(op)]
+            try:
+                if arr is a:
+                    return a.compare(b, fn)
+                return b.compare(a, lambda x, y: fn(y, x))
+            except ValueError as ex:
+                raise Raised(f"ValueError: {ex}")
         if isinstance(op, (ast.Eq, ast.NotEq)):
             r = self.equal(a, b)
             return r if isinstance(op, ast.Eq) else not r
